@@ -586,6 +586,10 @@ func runC16(r *hx.Result, cfg hx.Config) {
 		by.Close()
 	}
 
+	// ---- B2. socket read size vs pipeline buffer: source constants, exact-length bursts ----
+	checkReadSizes(r, drv)
+	runBursts(r, cfg)
+
 	// ---- D. argument-level malformed stream (well-framed commands, hostile arguments) ----
 	runArgFuzz(r, cfg, rng)
 }
